@@ -42,8 +42,10 @@ deriving DecidableEq, Repr
 /-- `BitFont::default()` = `from_ansi_font_page(0)` -/
 def defaultFont : Font := ⟨BinFmt.defaultFontName, BinFmt.defaultFontHeight, BinFmt.defaultFontData⟩
 
-/-- `BitFont::is_default`: by NAME -/
-def Font.isDefault (f : Font) : Bool := f.name == BinFmt.defaultFontName
+/-- `BitFont::is_default` (after `fix: BitFont::is_default compares the glyphs …`): the NAME and the size and the glyph
+    bytes of the built-in font (width 8 and length 256 are checked by the XBin writer before it asks) -/
+def Font.isDefault (f : Font) : Bool :=
+  f.name == BinFmt.defaultFontName && f.height == BinFmt.defaultFontHeight && f.data == BinFmt.defaultFontData
 
 /-- the name `guess_font_name` gives a font read from a file (only the default font is recognised here; any other
     built-in font would get its own name, which only shows in the SAUCE record of a re-saved file) -/
@@ -806,7 +808,7 @@ def allCells (p : Pic) (f : Cell → Bool) : Bool := p.rows.all fun r => r.all f
 def attrCell (ice : Bool) (c : Cell) : Bool :=
   c.ch ≤ 255 && isVisible c && c.attr.fg < 16 && (if ice then c.attr.bg < 16 && !isBlink c.attr else c.attr.bg < 8)
 
-def fontOk (f : Font) : Bool := 1 ≤ f.height && f.height ≤ 32 && f.data.length == 256 * f.height && (!f.isDefault || f == defaultFont)
+def fontOk (f : Font) : Bool := 1 ≤ f.height && f.height ≤ 32 && f.data.length == 256 * f.height
 
 def Representable (f : Fmt) (o : Opts) (p : Pic) : Bool :=
   wellFormed p &&
